@@ -9,7 +9,7 @@ use serde_json::{json, Value};
 use std::collections::BTreeMap;
 use std::path::Path;
 
-const NAMES: [&str; 9] = ["a-1", "a-b-1.0", "a-1.0nb2", "a-b-c-2nb10", "x-y-0", "nb-1nb1", "p5-Foo-Bar-0.01", "lib_x-2024.01.02", "q-1-2"];
+const NAMES: [&str; 12] = ["a-1", "a-b-1.0", "a-1.0nb2", "a-b-c-2nb10", "x-y-0", "nb-1nb1", "p5-Foo-Bar-0.01", "lib_x-2024.01.02", "q-1-2", "mktool-1.3-rc2", "foo-bar", "tex-lm-2.004-doc"];
 const MANDATORY: [&str; 3] = ["+COMMENT", "+CONTENTS", "+DESC"];
 const FILES: [&str; 14] = [
     "+BUILD_INFO", "+BUILD_VERSION", "+COMMENT", "+CONTENTS", "+DEINSTALL", "+DESC", "+DISPLAY", "+INSTALL", "+INSTALLED_INFO",
@@ -278,7 +278,7 @@ fn main() {
     }
     run.rule(
         "databases materialised on a scratch directory: every set of <= N package directories \
-         drawn from 9 name shapes (one or several '-', nb revisions, 'nb' as base, digits and dots) \
+         drawn from 12 name shapes (one or several '-', nb revisions, 'nb' as base, digits and dots, last part starting with a letter) \
          with distinct names, each with EVERY subset of {+COMMENT, +CONTENTS, +DESC}, optionally \
          extra '+' files and a non-metadata file, plus stray plain files (including one whose name \
          looks like a package) and the empty database. Checked: the multiset of yielded packages == \
@@ -318,7 +318,7 @@ fn main() {
         }
     }
     // three directories
-    let triples: Vec<(usize, usize, usize)> = if run.thorough() { vec![(0, 1, 2), (3, 4, 5), (6, 7, 8), (0, 4, 8), (2, 3, 7)] } else { vec![(0, 3, 6)] };
+    let triples: Vec<(usize, usize, usize)> = if run.thorough() { vec![(0, 1, 2), (3, 4, 5), (6, 7, 8), (0, 4, 8), (2, 3, 7), (9, 10, 11), (1, 9, 5)] } else { vec![(0, 3, 6), (9, 10, 11)] };
     for (a, b, c) in triples {
         for ma in 0..8u8 {
             for mb in 0..8u8 {
